@@ -32,6 +32,12 @@ def build(ub, algebra_text):
     impl = "impl TransitionSystemEncoding for UnrollSmtEncoding"
     init_at = src.find_fn("init_at", impl)
     unroll = src.find_fn("unroll", impl)
+    # what the exactly-once theorems REST ON without having it under contract (closures over hash sets, string-built names, the
+    # transform with a capturing closure): pinned by hash, so that a change is reported as undecided instead of passing silently
+    for fn_name in ("define_signals", "create_signal_symbols_in_step", "signal_sym_in_step", "expr_in_step", "new"):
+        ub.pin_assumed_fn(ENC, fn_name, "impl UnrollSmtEncoding", "not under contract (outside the dialect); pinned by hash")
+    ub.pin_assumed_fn(ENC, "get_signal_at", impl, "not under contract; pinned by hash")
+    ub.pin_assumed_fn("patronus/src/system/transition_system.rs", "is_const", "impl State", "decides which states get one un-stepped symbol; not under contract; pinned by hash")
     # ---- init_at(step): every call `self.define_signals(ctx, smt_ctx, STEP, &|info| F)` with its path condition
     def render(item, params, lets):
         sites = call_sites(item.body, "define_signals")
